@@ -54,15 +54,17 @@ PutImp(n, k, v) ==
 
 Merge(dst, src, S) == [k \in Keys |-> IF k \in S THEN src[k] ELSE dst[k]]
 
-(* mode: "ok" | "hash" (importer's types hash differs) | "cut" (body of the  *)
+(* mode: "ok" | "hash" (importer's types hash differs) | "noname" / "nohash" *)
+(* (request reaches the exporter without name / typesHash parameter: 400) |  *)
+(* "cut" (body of the  *)
 (* response for name `who` is cut short) | "neterr" (transport error for     *)
 (* name `who`).                                                              *)
 Import(mode, who) ==
   /\ mode \in {"cut", "neterr"} => who \in ImpNames
-  /\ mode \in {"ok", "hash"} => who = ""
+  /\ mode \in {"ok", "hash", "noname", "nohash"} => who = ""
   /\ \E pick \in [ImpNames -> SUBSET Keys] :
         /\ \A n \in ImpNames :
-              IF n \notin ExpNames \/ mode = "hash" \/ (mode = "neterr" /\ n = who)
+              IF n \notin ExpNames \/ mode \in {"hash", "noname", "nohash"} \/ (mode = "neterr" /\ n = who)
                 THEN pick[n] = {}
                 ELSE IF mode = "cut" /\ n = who
                   THEN pick[n] \subseteq Present(exp[n])      \* what arrived complete
@@ -74,7 +76,7 @@ Import(mode, who) ==
 Next ==
   \/ \E n \in ExpNames, k \in Keys, v \in Vals : PutExp(n, k, v)
   \/ \E n \in ImpNames, k \in Keys, v \in Vals : PutImp(n, k, v)
-  \/ \E m \in {"ok", "hash"} : Import(m, "")
+  \/ \E m \in {"ok", "hash", "noname", "nohash"} : Import(m, "")
   \/ \E m \in {"cut", "neterr"}, w \in ImpNames : Import(m, w)
   \/ \E n \in ExpNames \cup {"", "nosuch"} : ExportJSONL(n)
 
@@ -87,7 +89,7 @@ ImportExact ==
         \A n \in ImpNames : IF n \in ExpNames
                               THEN \A k \in Keys : imp'[n][k] = (IF exp[n][k] # Absent THEN exp[n][k] ELSE imp[n][k])
                               ELSE imp'[n] = imp[n]]_vars
-MismatchImportsNothing == [][op'.name = "Import" /\ op'.mode = "hash" => imp' = imp]_vars
+MismatchImportsNothing == [][op'.name = "Import" /\ op'.mode \in {"hash", "noname", "nohash"} => imp' = imp]_vars
 OthersUntouched ==
   [][op'.name = "Import" => \A n \in ImpNames : n \notin ExpNames => imp'[n] = imp[n]]_vars
 ImportedWasExported ==
